@@ -516,3 +516,106 @@ def no_global_state(ctx, rule: str, consequence: str):
            construct="process-wide state (package)")
     if n < 150:
         raise AnalysisError(f"global-state scan saw only {n} functions")
+
+
+def _memoised_members(cls):
+    """[(name, kind, cache_attr, [computing FuncInfos])] for cached_property-style decorators and the lazy-attribute idiom
+    `if self._x is None: <fill self._x>; return self._x`."""
+    out = []
+    for name, f in cls.methods.items():
+        decos = [norm(d) for d in f.node.decorator_list]
+        if any(d.split("(")[0].split(".")[-1] in ("cached_property", "lru_cache", "cache") for d in decos):
+            out.append((name, "decorator", name, [f]))
+            continue
+        if "property" not in decos:
+            continue
+        for st in f.node.body:
+            if isinstance(st, ast.If) and isinstance(st.test, ast.Compare) and isinstance(st.test.left, ast.Attribute) \
+                    and _self_root(st.test.left) and len(st.test.ops) == 1 and isinstance(st.test.ops[0], ast.Is) \
+                    and isinstance(st.test.comparators[0], ast.Constant) and st.test.comparators[0].value is None:
+                cache = st.test.left.attr
+                rets = [r for r in own_nodes(f.node) if isinstance(r, ast.Return) and r.value is not None]
+                if any(norm(r.value) == f"self.{cache}" for r in rets) and all(
+                        norm(r.value) == f"self.{cache}" or isinstance(r.value, ast.Constant) for r in rets):
+                    comp = [f]
+                    for c in ast.walk(st):
+                        if isinstance(c, ast.Call) and isinstance(c.func, ast.Attribute) and _self_root(c.func) and c.func.attr in cls.methods:
+                            comp.append(cls.methods[c.func.attr])
+                    out.append((name, "lazy attribute", cache, comp))
+    return out
+
+
+def memo_discipline(ctx, rule: str, consequence: str, floor: int = 2, classes: tuple = ()):
+    """Every memoised value (cached_property / lru_cache on a method / lazy `_x is None` attribute) is invalidated by every
+    method that rebinds one of the attributes it was computed from (property setters included)."""
+    repo = ctx.repo
+    n = 0
+    for m in repo.modules.values():
+        if m.name.startswith("tdgl.test"):
+            continue
+        for cls in m.classes.values():
+            if classes and cls.name not in classes:
+                continue
+            members = _memoised_members(cls)
+            if not members:
+                continue
+            # all function definitions of the class body, getters and setters of one property both kept
+            defs = [d for d in cls.node.body if isinstance(d, ast.FunctionDef)]
+            getters = {}
+            for d in defs:
+                if not any(norm(x).endswith((".setter", ".deleter")) for x in d.decorator_list):
+                    getters.setdefault(d.name, d)
+            for name, kind, cache, comp in members:
+                n += 1
+                comp_nodes = [c.node for c in comp]
+                deps, todo, seen = set(), list(comp_nodes), set()
+                while todo:
+                    g = todo.pop()
+                    if id(g) in seen:
+                        continue
+                    seen.add(id(g))
+                    for x in own_nodes(g):
+                        if isinstance(x, ast.Attribute) and isinstance(x.ctx, ast.Load) and _self_root(x) and x.attr != cache:
+                            deps.add(x.attr)
+                            if x.attr in getters:
+                                todo.append(getters[x.attr])
+                by_name = {}
+                for d in defs:
+                    by_name.setdefault(d.name, []).append(d)
+
+                def invalidates(h, depth=0):
+                    for x in own_nodes(h):
+                        if isinstance(x, ast.Attribute) and isinstance(x.ctx, (ast.Store, ast.Del)) and _self_root(x) and x.attr == cache:
+                            return True
+                        if isinstance(x, ast.Call) and isinstance(x.func, ast.Attribute) and x.func.attr in ("pop", "__delitem__", "clear") \
+                                and norm(x.func.value) in ("self.__dict__", "vars(self)"):
+                            return True
+                        if isinstance(x, ast.Subscript) and isinstance(x.ctx, ast.Del) and norm(x.value) == "self.__dict__":
+                            return True
+                        if depth < 2 and isinstance(x, ast.Call) and isinstance(x.func, ast.Attribute) and _self_root(x.func) \
+                                and x.func.attr in by_name and any(k is not h and invalidates(k, depth + 1) for k in by_name[x.func.attr]):
+                            return True
+                    return False
+                bad = []
+                for d in defs:
+                    if d.name in ("__init__", "__setstate__", "__new__") or d in comp_nodes:
+                        continue
+                    stores = {x.attr for x in own_nodes(d) if isinstance(x, ast.Attribute) and isinstance(x.ctx, (ast.Store, ast.Del))
+                              and _self_root(x) and x.attr in deps}
+                    # the setter of a property the value depends on rebinds that property
+                    for dec in d.decorator_list:
+                        t = norm(dec)
+                        if t.endswith(".setter") and t[:-7] in deps:
+                            stores.add(t[:-7])
+                    if stores and not invalidates(d):
+                        bad.append(f"{cls.name}.{d.name} (L{d.lineno}) rebinds {sorted(stores)}")
+                f0 = comp[0]
+                ctx.ob(rule, f"{cls.name}.{name} ({kind}): every method that rebinds {sorted(deps)[:6]} invalidates the memo", not bad,
+                       detail={"computed_from": sorted(deps), "writers_without_invalidation": bad}, where=f0.fq,
+                       construct=f"memoised {cls.name}.{name} not invalidated", loc=loc(f0, f0.node),
+                       message=f"{cls.name}.{name} is memoised ({kind}) but {bad[:2]} without invalidating it: the memo goes stale",
+                       consequence=consequence, witness={"stale_after": bad[:3]} if bad else None)
+    if n < floor:
+        raise AnalysisError(f"memoisation discipline: only {n} memoised members found (expected >= {floor})")
+    if n == 0:
+        ctx.ob(rule, f"no memoised member in {classes or 'the package'} (nothing can go stale)", True, where="package", construct="memoised members")
